@@ -125,18 +125,26 @@ def predicate_class(exe, verdict):
     # exact determinant is non-zero.
     import itertools
     four = tri + [site]
-    answers = set()
+    qlines = []
     for qi in range(4):
         rest = [four[i] for i in range(4) if i != qi]
         for perm in itertools.permutations(rest):
             args = []
             for (x, y) in list(perm) + [four[qi]]:
                 args += [hexd(math.ldexp(float(x), e0)), hexd(math.ldexp(float(y), e0))]
-            rc, out = verif.sh([exe, "incircle"] + args, timeout=30)
-            try:
-                answers.add(int(out.strip().split()[-1]))
-            except Exception:
-                pass
+            qlines.append(" ".join(args))
+    qf = os.path.join(verif.BUILD, "work", "c16-incircle-%d.txt" % os.getpid())
+    os.makedirs(os.path.dirname(qf), exist_ok=True)
+    with open(qf, "w") as f:
+        f.write("\n".join(qlines) + "\n")
+    rc, out = verif.sh([exe, "incirclef", qf], timeout=60)
+    answers = set()
+    for l in out.split():
+        try:
+            answers.add(int(l))
+        except ValueError:
+            pass
+    answers.discard(-1)
     if not answers:
         return None
     loc = 1 if 1 in answers else sorted(answers)[0]
@@ -225,7 +233,7 @@ def run(ctx):
                                "replay_cmd": "bin/check C16 --replay <this file>", "signature": sig}, signature=sig)
         corr["corpus"] = {"cases": len(rows), "disagreements": bad, "distribution": {}}
     quick = ctx.tier == "quick"
-    plan = (("delaunay", 4000 if quick else 60000), ("cdt", 6000 if quick else 120000), ("voronoi", 3200 if quick else 50000))
+    plan = (("delaunay", 4000 if quick else 40000), ("cdt", 6000 if quick else 80000), ("voronoi", 3200 if quick else 40000))
     shards = min(verif.NPROC, 8 if quick else 16)
     for stream, n in plan:
         r = verif.run_stream(exe, stream, ctx.seed, n, ctx.work, shards=shards, driver_exe=DRV)
@@ -238,7 +246,32 @@ def run(ctx):
             continue
         seen = list(reported)
         budget = 12          # shrink at most this many disagreements per stream
-        for idx, case, exp, got in r["disagreements"]:
+        # run_stream keeps the first 50 disagreements only; read every shard again so that a rare second kind of
+        # failure cannot hide behind a frequent one: one representative per (cheap) clause key and, for the in-circle
+        # clauses, per predicate class
+        dis = list(r["disagreements"])
+        if r.get("more_disagreements", 0):
+            dis = []
+            for k in range(shards):
+                base = os.path.join(ctx.work, "%s.%d" % (stream, k))
+                try:
+                    with open(base + ".cases") as fc, open(base + ".expect") as fe, open(base + ".got") as fg:
+                        for i, (c, e_, g) in enumerate(zip(fc.read().split("\n"), fe.read().split("\n"), fg.read().split("\n"))):
+                            if e_ != g and c:
+                                dis.append((i, c, e_, g))
+                except OSError:
+                    pass
+        keyed, order = {}, []
+        for d in dis:
+            k0 = clause(d[3]) if d[3].startswith("FAIL") else d[3][:40]
+            if k0 in ("not-delaunay", "not-constrained-delaunay"):
+                sg, _ = signature_for(stream, d[3], exe)
+                k0 = json.dumps(sg, sort_keys=True)
+            if k0 not in keyed:
+                keyed[k0] = d
+                order.append(k0)
+        corr[stream]["failure_kinds"] = {k: sum(1 for d in dis if (clause(d[3]) if d[3].startswith("FAIL") else d[3][:40]) == k) for k in order if not k.startswith("{")}
+        for idx, case, exp, got in [keyed[k] for k in order]:
             if not got.startswith("FAIL"):
                 # ok vs ok-error mismatch or a driver parse problem: the tie itself is broken, not the property
                 key = "shape:" + got.split()[0] if got else "shape"
